@@ -8,7 +8,7 @@ import re
 from typing import Dict, List, Optional, Tuple
 
 from ..astutil import call_name, calls_in, dotted, unparse, walk_local, walk_stmts
-from ..report import Registry, sub
+from ..report import Registry, chain, sub
 
 R = Registry(
     "C35",
@@ -19,7 +19,8 @@ R = Registry(
         "names a declared event; at each dispatch site the event fired is the one whose name matches the "
         "pre-state computed from the same atoms (attach: key decides detached/transient; detach: the four-way "
         "choice is a function of (to_transient, _deleted, key); flush/rollback/load sites are control-dependent "
-        "on the state change they announce); key/session_id/_deleted are written only by the enumerated owners."
+        "on the state change they announce); key/session_id/_deleted are written only by the enumerated owners; the exits "
+        "of the session (detach family, make_transient*) re-establish all three atoms together (`_deleted` only with a key)."
     ),
     not_decided="that every API operation moves objects along the documented transition relation for all histories.",
 )
@@ -381,8 +382,12 @@ def r3(ctx):
                                                      or (isinstance(n.stmt, ast.Assign) and any(dotted(t) == f"{recv}._deleted" for t in n.stmt.targets)
                                                          and isinstance(n.stmt.value, ast.Constant) and n.stmt.value.value is False)))
     # locals that remember the pre-state `_deleted`
-    remembered = {st.targets[0].id for st in walk_stmts(f.node.body)
-                  if isinstance(st, ast.Assign) and len(st.targets) == 1 and isinstance(st.targets[0], ast.Name) and dotted(st.value) == f"{recv}._deleted"}
+    # (a local bound AFTER the flag was cleared remembers nothing: it is always False and the event would never fire)
+    remembered = set()
+    for st in walk_stmts(f.node.body):
+        if isinstance(st, ast.Assign) and len(st.targets) == 1 and isinstance(st.targets[0], ast.Name) and dotted(st.value) == f"{recv}._deleted":
+            if g.witness(undeletes, g.nodes_for(st)) is None:
+                remembered.add(st.targets[0].id)
     for n in fires:
         guards = g.edge_guards(n)
         atoms = set()
@@ -390,7 +395,8 @@ def r3(ctx):
             from ..astutil import test_atoms
             atoms.update(test_atoms(t, pol))
         w = g.always_preceded(n, undeletes)
-        by_flag = any((a, True) in atoms for a in remembered | {f"{recv}._deleted"})
+        direct = {f"{recv}._deleted"} if g.witness(undeletes, [n]) is None else set()
+        by_flag = any((a, True) in atoms for a in remembered | direct)
         cond_revert = ("revert_deletion", True) in atoms
         ctx.check((w is None and bool(undeletes) or by_flag) and cond_revert, f"{f.key}:deleted_to_persistent",
                   "deleted_to_persistent is fired on a path where no deletion was reverted (state._deleted was not set / not cleared): "
@@ -519,6 +525,65 @@ def r4(ctx):
         ctx.require(any(a == attr for a, _ in found), f"no writer of `{attr}` found at all")
 
 
+# ---------------------------------------------------------------------- R5
+def _key_receiver(fn) -> Optional[str]:
+    """The local whose `.key` the function assigns / deletes (the instance state it works on)."""
+    for st in walk_stmts(fn.body):
+        tg = st.targets if isinstance(st, (ast.Assign, ast.Delete)) else []
+        for t in tg:
+            if isinstance(t, ast.Attribute) and t.attr == "key" and isinstance(t.value, ast.Name) and t.value.id != "self":
+                return t.value.id
+    return None
+
+
+def _kd(K, D):
+    return f"{'key=None' if K else 'key'},{'_deleted' if D else 'not-_deleted'}"
+
+
+@R.rule("C35-R5", floor=11, template="T-BOOL",
+        desc="the exits of the session re-establish ALL lifecycle atoms: run symbolically over (key is None, attached, "
+             "_deleted), InstanceState._detach_states leaves session_id cleared, the key cleared exactly when "
+             "to_transient, and never `_deleted` on a key-less (transient) state; make_transient ends with neither key "
+             "nor _deleted, make_transient_to_detached with a key and without _deleted -- `_deleted` only ever "
+             "accompanies an identity key")
+def r5(ctx):
+    # (a) the detach family
+    f = ctx.func(f"{STATE}::InstanceState._detach_states")
+    loops = [n for n in f.node.body if isinstance(n, ast.For) and isinstance(n.target, ast.Name)]
+    ctx.require(len(loops) == 1 and "to_transient" in f.params, "_detach_states is not one loop over the states with a to_transient flag")
+    lp = loops[0]
+    sim = _Sim(ctx, f.key, lp.target.id, _event_aliases(f.node), f.params)
+    for T, K, D in itertools.product([False, True], repeat=3):
+        if K and D:
+            continue  # not a state an object can be in: the invariant checked here excludes it
+        fired, post = sim.run(lp.body, {"K": K, "A": True, "D": D}, {"to_transient": T})
+        bad = []
+        if post["A"]:
+            bad.append("session_id is not cleared")
+        if post["K"] != (K or T):
+            bad.append("the identity key is " + ("kept although the object is sent back to transient" if T else "removed although the object is only detached"))
+        if post["K"] and post["D"]:
+            bad.append("the object ends up transient (no key, no session) with `_deleted` still set: was_deleted stays True, and after the next add() + flush "
+                       "inspect(obj).deleted is True for a persistent object (Session.add refuses it as 'has been deleted')")
+        ctx.check(not bad, f"{f.key}:post[{'to_transient' if T else 'detach'},{_kd(K, D)}]", "; ".join(bad),
+                  f"-> {_kd(post['K'], post['D'])}, unattached", f.loc)
+    # (b) the documented API functions
+    for name, want_key in (("make_transient", False), ("make_transient_to_detached", True)):
+        f = ctx.func(f"{SESSION}::{name}")
+        recv = _key_receiver(f.node)
+        ctx.require(recv is not None, f"{name} does not write the key of a state")
+        sim = _Sim(ctx, f.key, recv, {}, f.params)
+        pres = [(K, D) for K in ((True,) if want_key else (False, True)) for D in (False, True) if want_key or not (K and D)]
+        for K, D in pres:
+            fired, post = sim.run(f.node.body, {"K": K, "A": False, "D": D}, {})
+            bad = []
+            if post["K"] == want_key:
+                bad.append("the object still has an identity key" if not want_key else "the object gets no identity key")
+            if post["D"]:
+                bad.append("`_deleted` stays set" + ("" if want_key else " on an object without identity key"))
+            ctx.check(not bad, f"{f.key}:post[{_kd(K, D)}]", "; ".join(bad), f"-> {_kd(post['K'], post['D'])}", f.loc)
+
+
 # ---------------------------------------------------------------------- self-test battery
 R.mutant("pending-ignores-attached", STATE, sub("        return self.key is None and self._attached\n", "        return self.key is None\n"), "C35-R1")
 R.mutant("persistent-forgets-deleted", STATE, sub("        return self.key is not None and self._attached and not self._deleted\n", "        return self.key is not None and self._attached\n"), "C35-R1")
@@ -542,3 +607,26 @@ R.mutant("new-writer-of-session-id", "orm/identity.py", sub("    def _manage_rem
 R.mutant("benign-reorder-conjuncts", STATE, sub("        return self.key is not None and self._attached and self._deleted\n", "        return self._deleted and self._attached and self.key is not None\n"), None)
 R.mutant("benign-rename-local", STATE, sub("            pending = state.key is None\n            persistent = not pending and not deleted\n", "            is_pending = state.key is None\n            pending = is_pending\n            persistent = not is_pending and not deleted\n"), None)
 R.mutant("benign-logging-in-attach", SESSION, sub("        self.dispatch.after_attach(self, state)\n", "        self.dispatch.after_attach(self, state)\n        _dbg = state_str(state)\n"), None)
+
+# ---- seeds / C35-R5 / tightened C35-R3(e)
+_TT = "            if to_transient and state.key:\n                del state.key\n                if deleted:\n                    del state._deleted\n"
+R.mutant("seed-detach-to-transient-keeps-deleted-flag", STATE, sub(_TT, "            if to_transient and state.key:\n                del state.key\n"), "C35-R5")
+R.mutant("detach-clears-deleted-flag-only-when-persistent", STATE,
+         sub(_TT, "            if to_transient and state.key:\n                del state.key\n                if deleted and persistent:\n                    del state._deleted\n"), "C35-R5")
+R.mutant("detach-removes-key-without-to-transient", STATE, sub(_TT, "            if state.key:\n                del state.key\n                if deleted:\n                    del state._deleted\n"), "C35-R5")
+R.mutant("make-transient-keeps-deleted-flag", SESSION,
+         sub("    if state.key:\n        del state.key\n    if state._deleted:\n        del state._deleted\n", "    if state.key:\n        del state.key\n"), "C35-R5")
+R.mutant("make-transient-to-detached-keeps-deleted-flag", SESSION,
+         sub("    state.key = state.mapper._identity_key_from_state(state)\n    if state._deleted:\n        del state._deleted\n", "    state.key = state.mapper._identity_key_from_state(state)\n"), "C35-R5")
+R.mutant("benign-detach-clears-flag-in-own-statement", STATE,
+         sub(_TT, "            if to_transient and state.key:\n                del state.key\n            if to_transient and deleted:\n                state._deleted = False\n"), None)
+R.mutant("seed-deleted-to-persistent-without-was-deleted", SESSION,
+         chain(sub("        was_deleted = state._deleted\n        if state._deleted:\n            if revert_deletion:", "        if state._deleted:\n            if revert_deletion:"),
+               sub("        elif revert_deletion and was_deleted:\n", "        elif revert_deletion:\n")), "C35-R3")
+R.mutant("was-deleted-read-after-the-flag-is-cleared", SESSION,
+         chain(sub("        was_deleted = state._deleted\n        if state._deleted:\n            if revert_deletion:", "        if state._deleted:\n            if revert_deletion:"),
+               sub("        obj = state.obj()\n\n        # check for late gc\n        if obj is None:\n            return\n\n        to_attach = self._before_attach(state, obj)\n\n        self._deleted.pop(state, None)\n",
+                   "        was_deleted = state._deleted\n        obj = state.obj()\n\n        # check for late gc\n        if obj is None:\n            return\n\n        to_attach = self._before_attach(state, obj)\n\n        self._deleted.pop(state, None)\n")), "C35-R3")
+R.mutant("benign-was-deleted-renamed", SESSION,
+         chain(sub("        was_deleted = state._deleted\n        if state._deleted:\n            if revert_deletion:", "        flushed_delete = state._deleted\n        if flushed_delete:\n            if revert_deletion:"),
+               sub("        elif revert_deletion and was_deleted:\n", "        elif flushed_delete and revert_deletion:\n")), None)
